@@ -17,6 +17,25 @@ CLAIMED = {
  "C09": ("routersim", "exploration", "DESIGN.md 5.1, 6/C09",
    "Window invariants (<=100 awaiting ack, non-zero unique ids) checked on every forward from the client's side under backlogs up to several hundred messages and all ack pacings; no-lost-wakeup: at quiescence (acks and drains only, no new stimulus) the whole backlog has been delivered. Sampling, not proof.",
    ROUTER_NOTE, "deterministic simulation with seeded scheduler, invariants + bounded liveness at quiescence"),
+ "C05": ("streamsim", "exploration", "DESIGN.md 5.4, 6/C05",
+   "Seeded search over byte streams (valid frames from both crates' encoders, mutations, random bytes, fixed-header boundary cases) x chunking / Pending / EOF schedules over an in-memory AsyncRead for the four decoders; the stream wrapper (Framed, Network::read+readv) must yield exactly what repeated one-shot decoding of the delivered prefix yields, with independent fixed-header parsing for the consumed-length, oversize and needs-more rules. Sampling, not proof.",
+   "Trusted: the harness's own fixed-header parser and in-memory transport; tokio current-thread runtime with paused clock.",
+   "deterministic simulation of the transport seam (chunking, Pending, EOF) + differential oracle"),
+ "C08": ("routersim", "fault_enumeration", "DESIGN.md 5.1, 6/C08",
+   "For every seeded history the persistent subscriber's connection is ended at EVERY scheduler step index in each of four ways (DISCONNECT, link failure, router close after protocol error, takeover) and the run re-executed; the session model (subscriptions, per-subscription position rewound to the oldest forward the broker has no ack for, incl. forwards left in the dead buffer) judges CONNACK.session_present and the resumed stream; completeness at quiescence.",
+   ROUTER_NOTE, "deterministic simulation, crash points enumerated per seeded history"),
+ "C14": ("routersim", "exploration", "DESIGN.md 5.1, 6/C14",
+   "A well-behaved pair plus 1-4 rogue clients (only actions whose effect on the connection is certain) and the stale events a finished link can still emit, in every order relative to connections reusing its slot; for every protocol-obeying client the C01, C06 and C09 oracles hold and its connection is never closed; stale Disconnect/Shadow events acting on a later connection are violations. Sampling, not proof.",
+   ROUTER_NOTE, "deterministic simulation with fault injection (rogue packets, stale events, drops, stalls)"),
+ "C15": ("routersim", "exploration", "DESIGN.md 5.1, 6/C15",
+   "Retained-message history model (set / cleared / unspecified per topic, indexed by acceptance order); every forward flagged retain=1 must be the replay owed to a new non-shared subscription with a value held since that subscription was accepted; replay completeness at quiescence when it fits the window. Sampling, not proof.",
+   ROUTER_NOTE, "deterministic simulation with seeded scheduler + retained-map reference model"),
+ "C16": ("routersim", "exploration", "DESIGN.md 6/C16 (router half; the per-connection task half is netsim's)",
+   "Clients with wills ending by DISCONNECT packet or link failure at seeded points, PublishWill events as remote() sends them; the will is an accepted message of the reference model iff no DISCONNECT was processed, so it must reach each matching subscription exactly once and never otherwise. Exploration (seeded end points), router half only: the decision of remote() whether to send PublishWill is modelled by the link actor.",
+   ROUTER_NOTE, "deterministic simulation with seeded scheduler + will ledger"),
+ "C17": ("routersim", "exploration", "DESIGN.md 5.1, 6/C17",
+   "Ledger per (group, message): forwarded to at most one member, never twice (except at-least-once redelivery after an unacknowledged recipient left), per-member order, never to a non-member after it left, completeness at quiescence incl. forwards left in dead members' buffers; three strategies with the Random one driven by the choice stream. Sampling, not proof.",
+   ROUTER_NOTE, "deterministic simulation with seeded scheduler + group ledger"),
  "C13": ("logsim", "exploration", "DESIGN.md 5.5, 6/C13",
    "Seeded search over histories of appends interleaved with reads by independent cursor holders (fresh, stale, tag, continuation, fabricated cursors) on seeded segment geometries, each read checked against a reference vector; sampling, not proof.",
    "Trusted: the reference vector, and append()/_head_and_tail() as the observation of what is retained. Single-threaded (the log is owned by the router thread).",
